@@ -144,10 +144,22 @@ def _run_chunk(args):
                  "violation": {"scenario": {"regenerate": {"oracle": name, "seed": seed, "case": i, "params": {k: v for k, v in params.items() if isinstance(v, (int, str, float, bool))}}},
                                "clause": "does-not-terminate", "observed": "case still running after the per-case time limit",
                                "expected": "termination", "signature": f"{name}:does-not-terminate"}}
-        except Exception as e:  # an oracle crash is a machinery failure; surface it
+        except Exception as e:  # noqa
+            # The oracle itself raised.  On the tree the checks were built against this never happens (every seed is
+            # green), so the code under test has returned something the oracle's own bookkeeping cannot digest (a value
+            # of an unexpected type, a structure of an unexpected shape): reported as a violation with the traceback,
+            # and the case can be regenerated from (oracle, seed, case).  HX_STRICT=1 restores the old behaviour
+            # (machinery failure, exit 2) for development.
             import traceback
 
-            r = {"internal_error": traceback.format_exc(), "nontrivial": False, "key": ("err", i), "violation": None, "meta": {}}
+            tb = traceback.format_exc()
+            if os.environ.get("HX_STRICT"):
+                r = {"internal_error": tb, "nontrivial": False, "key": ("err", i), "violation": None, "meta": {}}
+            else:
+                r = {"nontrivial": True, "key": ("crash", i), "meta": {"oracle_crash": type(e).__name__},
+                     "violation": {"scenario": {"regenerate": {"oracle": name, "seed": seed, "case": i, "params": {k: v for k, v in params.items() if isinstance(v, (int, str, float, bool))}}},
+                                   "clause": "oracle-could-not-evaluate", "observed": tb[-1500:],
+                                   "expected": "values of the documented types and shapes", "signature": f"{name}:oracle-could-not-evaluate"}}
         r["case"] = i
         out.append(r)
     return out
